@@ -599,8 +599,16 @@ func (env *c12Env) execOp(g int, op C12Op, alone bool) (res string) {
 		target := env.ftypes[fi]
 		var got []reflect.Value
 		k := 0
+		failAt := -1
+		if op.B%5 == 0 {
+			failAt = op.A % 3 // the callback closes its bank and then fails, as a consumer that gives up would
+		}
 		err := avro.ReadFile(rd, reflect.New(target).Elem().Interface(), func(val unsafe.Pointer, rb *avro.ResourceBank) error {
 			got = append(got, DeepCopy(reflect.NewAt(target, val).Elem()))
+			if k == failAt {
+				rb.Close()
+				return errCallback
+			}
 			k++
 			if !alone && (k+op.B)%2 == 0 {
 				// hand the bank to another goroutine for closing
